@@ -426,6 +426,8 @@ pub struct TableS {
     fk: Option<(Option<ForeignKeyAction>, Option<ForeignKeyAction>)>,
     check: bool,
     if_not_exists: bool,
+    /// a second foreign key (`id` -> p.id, ON DELETE CASCADE); both keys are then declared without a name
+    fk2: bool,
 }
 
 fn act_sql(x: ForeignKeyAction) -> &'static str {
@@ -466,7 +468,10 @@ fn check_table(t: &TableS) -> Result<bool, (String, String)> {
         }
         if let Some((od, ou)) = &t.fk {
             let mut f = ForeignKey::create();
-            f.name("fk1").from(a("t"), a("a")).to(a("p"), a("id"));
+            if !t.fk2 {
+                f.name("fk1");
+            }
+            f.from(a("t"), a("a")).to(a("p"), a("id"));
             if let Some(x) = od {
                 f.on_delete(*x);
             }
@@ -474,6 +479,9 @@ fn check_table(t: &TableS) -> Result<bool, (String, String)> {
                 f.on_update(*x);
             }
             s.foreign_key(&mut f);
+            if t.fk2 {
+                s.foreign_key(ForeignKey::create().from(a("t"), a("id")).to(a("p"), a("id")).on_delete(ForeignKeyAction::Cascade));
+            }
         }
         if t.check {
             s.check(Expr::col(a("a")).gt(0));
@@ -502,6 +510,9 @@ fn check_table(t: &TableS) -> Result<bool, (String, String)> {
         }
         if let Some(x) = ou {
             r.push_str(&format!(" ON UPDATE {}", act_sql(*x)));
+        }
+        if t.fk2 {
+            r.push_str(", FOREIGN KEY (\"id\") REFERENCES \"p\" (\"id\") ON DELETE CASCADE");
         }
     }
     if t.check {
@@ -664,13 +675,16 @@ pub fn run(rep: &Arc<Report>) {
         for uq in 0..3u8 {
             for check in [false, true] {
                 for ine in [false, true] {
-                    tables.push(TableS { pk, uq, fk: None, check, if_not_exists: ine });
+                    tables.push(TableS { pk, uq, fk: None, check, if_not_exists: ine, fk2: false });
                     for od in acts {
                         for ou in acts {
                             if ine && (pk > 0 || uq > 0) {
                                 continue;
                             }
-                            tables.push(TableS { pk, uq, fk: Some((od, ou)), check, if_not_exists: ine });
+                            tables.push(TableS { pk, uq, fk: Some((od, ou)), check, if_not_exists: ine, fk2: false });
+                            if od.is_none() || ou.is_none() {
+                                tables.push(TableS { pk, uq, fk: Some((od, ou)), check, if_not_exists: ine, fk2: true });
+                            }
                         }
                     }
                 }
@@ -679,7 +693,7 @@ pub fn run(rep: &Arc<Report>) {
     }
     par_items(&tables, |_w, t| {
         if let Err((sig, det)) = check_table(t) {
-            record("table", &sig, format!("{:?}", t), format!("table {:?}: {}", t, det), json!({"kind": "table", "spec": format!("{:?}", t), "pk": t.pk, "uq": t.uq, "check": t.check, "if_not_exists": t.if_not_exists, "fk": t.fk.map(|(a, b)| (a.map(|x| act_sql(x)), b.map(|x| act_sql(x))))}));
+            record("table", &sig, format!("{:?}", t), format!("table {:?}: {}", t, det), json!({"kind": "table", "spec": format!("{:?}", t), "pk": t.pk, "uq": t.uq, "check": t.check, "if_not_exists": t.if_not_exists, "fk2": t.fk2, "fk": t.fk.map(|(a, b)| (a.map(|x| act_sql(x)), b.map(|x| act_sql(x))))}));
         }
     });
     // (3)
@@ -762,7 +776,7 @@ pub fn replay(case: &serde_json::Value) -> Option<String> {
         "table" => {
             let act = |v: &serde_json::Value| -> Option<ForeignKeyAction> { [ForeignKeyAction::Restrict, ForeignKeyAction::Cascade, ForeignKeyAction::SetNull, ForeignKeyAction::NoAction, ForeignKeyAction::SetDefault].into_iter().find(|x| Some(act_sql(*x)) == v.as_str()) };
             let fk = if serde_json::Value::is_null(&case["fk"]) { None } else { Some((act(&case["fk"][0]), act(&case["fk"][1]))) };
-            let t = TableS { pk: case["pk"].as_u64().unwrap_or(0) as u8, uq: case["uq"].as_u64().unwrap_or(0) as u8, fk, check: case["check"].as_bool().unwrap_or(false), if_not_exists: case["if_not_exists"].as_bool().unwrap_or(false) };
+            let t = TableS { pk: case["pk"].as_u64().unwrap_or(0) as u8, uq: case["uq"].as_u64().unwrap_or(0) as u8, fk, check: case["check"].as_bool().unwrap_or(false), if_not_exists: case["if_not_exists"].as_bool().unwrap_or(false), fk2: case["fk2"].as_bool().unwrap_or(false) };
             check_table(&t).err().map(|(sig, det)| format!("table {:?}: [{sig}] {det}", t))
         }
         _ => Some("MACHINERY: unknown replay kind".into()),
